@@ -642,6 +642,9 @@ func Tenant(w *load.World, c *core.Collector) {
 					switch x := r.(type) {
 					case *ssa.Call:
 						cc = x.Common()
+						if hashThroughParam(w, x) != "" {
+							hashed = true
+						}
 					case *ssa.Convert:
 						for _, rr := range *x.Referrers() {
 							if c2, ok := rr.(*ssa.Call); ok {
